@@ -526,7 +526,7 @@ def _dict_array_comp(data):
 
         # Get arrays back.
         if '__array' in key:
-            arraytype = key.split('__')[-1]
+            arraytype = key.rsplit('__', 1)[-1]
             dtype = getattr(np, arraytype[6:])
             value = np.asarray(value, dtype=dtype, order='F')
             key = key.replace(key[-len(arraytype)-2:], '')
